@@ -96,6 +96,8 @@ type Path struct {
 	mapOrderNondet bool
 	pinned         []string // pinned nondet values (concrete replay mode)
 	pinPos         int
+	seeded         bool   // pinned values come from the shared PRNG
+	rng            uint64
 
 	clockSec, clockNsec *Term // last clock reading (monotone clock model)
 	nextTag             string
@@ -117,6 +119,9 @@ func (p *Path) unsupported(format string, args ...interface{}) {
 func (p *Path) addPC(c *Term) {
 	if c.IsTrue() {
 		return
+	}
+	if c.IsFalse() {
+		p.abort(abortInfeasible, "constraint is false")
 	}
 	p.pc = append(p.pc, c)
 	if err := p.w.solver.Assert(c); err != nil {
@@ -255,6 +260,9 @@ func (p *Path) chooseIndex(n int, label string) int {
 	if n <= 1 {
 		return 0
 	}
+	if p.seeded {
+		return int(p.rngNext() % uint64(n))
+	}
 	v := p.nondet(label, BV(64), "choice")
 	p.addPC(p.w.tt.ULT(v, p.w.tt.BVC(64, uint64(n))))
 	return int(p.concretize(v))
@@ -269,7 +277,7 @@ func (p *Path) nondet(label string, s Sort, kind string) *Term {
 	p.nseq[label] = k + 1
 	name := sanitize(label) + "!" + fmt.Sprint(k)
 	var t *Term
-	if p.pinned != nil {
+	if p.pinned != nil || p.seeded {
 		t = p.pinnedValue(s)
 	} else {
 		t = p.w.tt.Var(name, s)
